@@ -6,6 +6,7 @@ package mock
 import (
 	"errors"
 	"io"
+	"os"
 	"sync"
 	"sync/atomic"
 	"time"
@@ -17,9 +18,11 @@ import (
 type Tail int
 
 const (
-	TailEOF        Tail = iota // clean end of stream
-	TailErrOnce                // one read error, then EOF
-	TailErrForever             // a read error on every further read
+	TailEOF            Tail = iota // clean end of stream
+	TailErrOnce                    // one read error, then EOF
+	TailErrForever                 // a read error on every further read
+	TailTimeoutOnce                // one time-out error (a net.Error whose Timeout() is true), then EOF
+	TailTimeoutForever             // a time-out error on every further read
 )
 
 var ErrRead = errors.New("mock: read error")
@@ -73,6 +76,14 @@ func (r *Reader) Read(p []byte) (int, error) {
 		return 0, io.EOF
 	case TailErrForever:
 		return 0, ErrRead
+	case TailTimeoutOnce:
+		if !r.errGiven {
+			r.errGiven = true
+			return 0, os.ErrDeadlineExceeded
+		}
+		return 0, io.EOF
+	case TailTimeoutForever:
+		return 0, os.ErrDeadlineExceeded
 	}
 	return 0, io.EOF
 }
